@@ -258,6 +258,7 @@ func registerStream() {
 			streamWorkload("faults", map[string]int{"quick": 90000, "thorough": 5000000}, streamGenOpts{mode: "c03", maxFiles: 3, maxVals: 5, selectors: true, faults: allFaults, faultProb: 100, sigProb: 15, bigProb: 3}),
 			sweepWorkload(map[string]int{"quick": 150, "thorough": 6000}),
 			hugeWorkload(map[string]int{"quick": 48, "thorough": 3000}),
+			procStreamWorkload("cli-streams", map[string]int{"quick": 4000, "thorough": 300000}),
 		},
 	})
 }
